@@ -22,7 +22,7 @@ PROP = dict(
               "n <= 64, else at {0,1,2,n/2-1,n/2,n/2+1,n-2,n-1} + top-level split positions {P,Q,P+1} of the length and of the half length; constant, "
               "alternating, geometric |r|=1 and |r|=1-4/n, 1e+150/1e-150; dense letter with O(n^2) oracle for n <= 256; fft(x,n')/rfft(x,n'): every "
               "n' in 1..2n for n <= 64 (dense letter + 2 impulses), n' in {1,n-1,n,n+1,2n} above (geometric letter + 2 impulses); czt: n <= 16, "
-              "m in 1..2n, 12 w = exp(-2 pi i p/q) (incl. 1/m), a in {0.5,1,2} x 4 angles, 3 letters. "
+              "m in 1..2n, 12 w = exp(-2 pi i p/q) (incl. 1/m), a in {0.5,1,2} x 4 angles plus exactly real a in {-1,-0.5,-2,-1.25,0.5,2,1.25} and exactly imaginary a = +-i*{1,0.5,2} (25 values), 3 letters. "
               "Quick only, listed lengths above 512: impulses/tones at {1, n/2+1, n-1, P, Q, P+1 (+ half-length split)}, entry points fft(x) and "
               "plan.solve(array) only, resize targets {n-1, n+1}",
         thorough="as quick with every n in 1..4096 (+ 58 listed lengths above 4096), all impulses/tones for n <= 256, dense oracle for n <= 1024, "
